@@ -564,6 +564,30 @@ pub fn one_case(ctx: &Ctx, case: u64, l: &mut Local) {
                 _ => api::sign_raw(&json!({"alg": "HS256", "typ": "kb+jwt"}), &kb_payload, jsonwebtoken::Algorithm::HS256, &jsonwebtoken::EncodingKey::from_secret(b"k")),
             };
             let fmt = *r.pick(&FMTS);
+            // systematically: an otherwise fully valid KB-JWT (right key, typ, aud, nonce, sd_hash)
+            // with exactly one member removed or replaced by another JSON type
+            if (case / 9) % 3 == 0 {
+                let good_payload = json!({"iss": "https://issuer.example/A", "exp": api::now() + 3600, "cnf": {"jwk": keys::holder_jwk_json(Alg::ES256, 0)}, "a": 1});
+                let gjwt = api::sign_payload(Alg::ES256, 0, &good_payload, None);
+                let full = json!({"aud": "aud", "nonce": "n", "iat": api::now(), "sd_hash": model::digest_of(&format!("{gjwt}~"))});
+                for member in ["aud", "nonce", "iat", "sd_hash"] {
+                    for repl in [None, Some(json!(null)), Some(json!(5)), Some(json!(["x"])), Some(json!({"a": 1}))] {
+                        let mut pl = full.clone();
+                        match &repl {
+                            None => {
+                                pl.as_object_mut().map(|o| o.remove(member));
+                            }
+                            Some(v) => pl[member] = v.clone(),
+                        }
+                        let kbj = api::sign_kb(Alg::ES256, 0, &pl, Some("kb+jwt"));
+                        let parts = Parts { jwt: gjwt.clone(), disclosures: vec![], kb: Some(kbj) };
+                        if let Some(t) = parts.encode(fmt, 0) {
+                            let v = api::verify(&t, &Resolver::Fixed(Alg::ES256, 0), Some(("aud", "n")), fmt);
+                            p.judge("SDJWTVerifier::new(kb)", &v.out, &|| json!({"kb_payload": pl, "format": fmt.name(), "note": "valid KB-JWT with one member removed / retyped"}));
+                        }
+                    }
+                }
+            }
             let parts = Parts { jwt, disclosures: vec![], kb: Some(kb) };
             p.l.distinct(crate::rng::mix(fp_base ^ gen::shape_fingerprint(&cnf) ^ gen::shape_fingerprint(&kb_payload).rotate_left(20)));
             if let Some(t) = parts.encode(fmt, 0) {
